@@ -575,7 +575,10 @@ Inductive op :=
 (* single-object flush: Flush(o) / FlushAndCommit(o) with the caller's object o (uuid u, content ob) *)
 | OFlushOne (u : N) (ob : obj) (withc : bool)
 (* Search.Expects(n) / ExpectsZeroOrN(n) on a kept search value *)
-| OExpects (sid : N) (n : Z) (zero_ok : bool).
+| OExpects (sid : N) (n : Z) (zero_ok : bool)
+(* outside the library: the entry of ONE object is removed from the index of ONE field in schema.json
+   (the object stays in the id table and in every other field index) *)
+| XRmFieldEntry (u : N) (fld : nat).
 
 Inductive out :=
 | RUnit (r : res unit)
@@ -667,11 +670,21 @@ Definition do_many (hk : hooks) (live_shape : N) (s : state) (ms : list member) 
   | [] => (s, Ok tt, 0%Z)
   | MOther :: r =>
       (* the first object decides the expected type: a batch led by an object of the other
-         collection fails on the first member of this one (and never touches this collection) *)
-      (s, (if existsb (fun x => match x with MRec _ _ _ => true | MOther => false end) r
-           then Err EWrongType else Ok tt),
-       (if existsb (fun x => match x with MRec _ _ _ => true | MOther => false end) r
-        then 0%Z else Z.of_nat (length ms)))
+         collection fails on the first member of this one.  Every member is INITIALISED before its type is
+         looked at: a member of this collection that has no uuid yet is given one, which asks whether that
+         uuid exists, which loads the schema of THIS collection (its error, if any, is the error of the
+         call) and starts its flusher.  Nothing else of this collection is touched. *)
+      match find (fun x => match x with MRec _ _ _ => true | MOther => false end) r with
+      | None => (s, Ok tt, Z.of_nat (length ms))
+      | Some (MRec u _ _) =>
+          if N.eqb u 0 then
+            match db_schema live_shape (s_h s) (w_disk (s_w s)) with
+            | (h1, _, Some e) => (mk h1 (s_w s), Err e, 0%Z)
+            | (h1, _, None) => (mk h1 (s_w s), Err EWrongType, 0%Z)
+            end
+          else (s, Err EWrongType, 0%Z)
+      | Some MOther => (s, Err EWrongType, 0%Z)
+      end
   | _ =>
       match db_schema live_shape (s_h s) (w_disk (s_w s)) with
       | (h1, Some m, None) =>
@@ -1098,6 +1111,22 @@ Definition step_fg (hk : hooks) (live_shape : N) (s : state) (o : op) : state * 
           else
             let r' := {| sr_fields := sr_fields r; sr_err := Some EUnexpectedN; sr_limit := sr_limit r; sr_rev := sr_rev r |} in
             (mk (set_srch h (put sid r' (h_srch h))) w, RSearch (Some EUnexpectedN) found)
+      end
+  | XRmFieldEntry u fld =>
+      match d_schema d with
+      | Some (SOk sf) =>
+          match uuid_oid (oi_ids (sf_idx sf)) u, nth fld (oi_fx (sf_idx sf)) None with
+          | Some oid, Some l =>
+              let ix := sf_idx sf in
+              let l' := filter (fun e => negb (N.eqb (snd e) oid)) l in
+              let ix' := {| oi_next := oi_next ix; oi_ids := oi_ids ix;
+                            oi_fx := firstn fld (oi_fx ix) ++ Some l' :: skipn (S fld) (oi_fx ix) |} in
+              (mk h (set_disk w (disk_set_schema (Some (SOk {| sf_set := sf_set sf; sf_fields := sf_fields sf;
+                                                              sf_shape := sf_shape sf; sf_idx := ix' |})) d)),
+               RUnit (Ok tt))
+          | _, _ => (s, RUnit (Err ENotFound))
+          end
+      | _ => (s, RUnit (Err ENotFound))
       end
   end.
 
